@@ -197,12 +197,13 @@ impl MinCostFlowSolver {
         let mut cost_overflow_checker: Cost = 0; // computes the maximal cost for the worst
                                                  // feasible flow
 
-        let maximal_formation_count_for_vehicle_type = self
-            .vehicle_types
-            .get(vehicle_type)
-            .unwrap()
-            .maximal_formation_count()
-            .unwrap_or(100) as UpperBound;
+        // Connections (in particular those from and to depots and maintenance slots) are not
+        // limited by the formation count; the number of vehicles is limited by the capacity of the
+        // overflow depot.
+        let maximal_flow_on_connection = self
+            .network
+            .get_depot(self.network.overflow_depot_idxs().0)
+            .total_capacity() as UpperBound;
 
         let trip_node_count =
             self.network.service_nodes(vehicle_type).count() + self.network.depots_iter().count();
@@ -327,17 +328,14 @@ impl MinCostFlowSolver {
                     + idle_time_cost;
 
                 cost_overflow_checker = cost_overflow_checker
-                    .checked_add(
-                        cost.checked_mul(maximal_formation_count_for_vehicle_type)
-                            .unwrap(),
-                    )
+                    .checked_add(cost.checked_mul(maximal_flow_on_connection).unwrap())
                     .expect("overflow in cost_overflow_checker");
 
                 edges.insert(
                     builder.add_edge(pred_right_rsnode, *left_rsnode),
                     EdgeLabel {
                         lower_bound: 0,
-                        upper_bound: maximal_formation_count_for_vehicle_type,
+                        upper_bound: maximal_flow_on_connection,
                         cost,
                     },
                 );
